@@ -612,6 +612,20 @@ pub(crate) async fn do_commit_detached_transaction(
     write_config: &ManifestWriteConfig,
     commit_config: &CommitConfig,
 ) -> Result<(Manifest, ManifestLocation)> {
+    // Detached commits are built on top of `dataset` as well: same writer flag check as in
+    // commit_transaction.
+    if !can_write_dataset(dataset.manifest.writer_feature_flags) {
+        return Err(Error::NotSupported {
+            source: format!(
+                "This dataset cannot be written by this version of Lance. \
+                 Please upgrade Lance to write to this dataset.\n Flags: {}",
+                dataset.manifest.writer_feature_flags
+            )
+            .into(),
+            location: location!(),
+        });
+    }
+
     // We don't strictly need a transaction file but we go ahead and create one for
     // record-keeping if nothing else.
     let transaction_file = if !write_config.disable_transaction_file() {
